@@ -800,6 +800,16 @@ struct Mon {
             expect(c, 1000000000, "nanoseconds", g, gp, tn, tpv);
           }
         }
+        if (q > -((int64_t)1 << 50) && q < ((int64_t)1 << 50)) {
+          // a floating-point representation: quarter seconds are exact in a double at this magnitude
+          for (int f4 : {-2, -1, 0, 1, 2, 3}) {
+            double c = static_cast<double>(q) + f4 * 0.25;
+            cctz::time_point<std::chrono::duration<double>> t{std::chrono::duration<double>(c)};
+            ctx.set_case("zone=%s path=%s op=next/prev_transition<double s> t=%" PRId64 "%+d/4", zid().c_str(), ze.path.c_str(), q, f4);
+            bool g = tz.next_transition(t, &tn), gp = tz.prev_transition(t, &tpv);
+            expect((i128)q * 4 + f4, 4, "double-seconds", g, gp, tn, tpv);
+          }
+        }
         {
           int64_t m = (int64_t)orc::fdiv(q, 60);
           for (int d : {0, 1}) {
